@@ -30,10 +30,12 @@ func checkC06(c *Ctx) {
 	c06Suite(c)
 	c06Immutable(c)
 	c06Policy(c)
+	c08ClientAuth(c) // both servers apply the same client-certificate policy (the rule of C08)
 	c06PHash(c)
 	c06Clones(c)
 	c06MsgBytes(c)
 	c06MaxPayload(c)
+	c06RecordLimit(c)
 	c06Fragment(c)
 	c06Deliver(c)
 	c07MustDecrypt(c) // includes: Read pulls a new record only when no decrypted data is pending
@@ -1036,5 +1038,59 @@ func c06MaxPayload(c *Ctx) {
 	}
 	if n == 0 {
 		c.Undecided(rule, fname(f), "payload limit", "no return found", f.Pos())
+	}
+}
+
+// c06RecordLimit: the receiving side refuses a record as too long only beyond maxCiphertext (2^14 + 2048, RFC 5246
+// 6.2.3): the test that leads to the record_overflow alert compares the announced length with a constant of at
+// least that size. A tighter, computed bound has to add up every per-record overhead of every suite (explicit IV, MAC,
+// padding, nonce, tag) to be right; one term missing and full-size records of that suite are rejected mid-stream.
+func c06RecordLimit(c *Ctx) {
+	rule := "K-C06-fragment"
+	f := c.Fn("gmtls", "(*Conn).readRecord")
+	if f == nil {
+		c.Missing(rule, "gmtls.(*Conn).readRecord", "method", "not found")
+		return
+	}
+	k22, ok22 := pkgConst(c, "gmtls", "alertRecordOverflow")
+	n := 0
+	for _, ci := range allCalls(f) {
+		call, ok := ci.(*ssa.Call)
+		if !ok || !calleeNamed(call, "sendAlert") || len(call.Call.Args) < 2 {
+			continue
+		}
+		if k, isK := constInt(call.Call.Args[1]); !isK || !ok22 || k != k22 {
+			continue
+		}
+		// the branch that leads here
+		for d := call.Block(); d != nil && d.Idom() != nil; d = d.Idom() {
+			x := d.Idom()
+			ifi, isIf := lastIf(x)
+			if !isIf || x.Succs[0] != d || len(d.Preds) != 1 {
+				continue
+			}
+			bo, isBo := ifi.Cond.(*ssa.BinOp)
+			if !isBo || (bo.Op != token.GTR && bo.Op != token.GEQ) {
+				break
+			}
+			n++
+			lim, isK := constInt(bo.Y)
+			need := int64(16384 + 2048)
+			if isLenOf(bo.X, func(ssa.Value) bool { return true }) {
+				need = 16384 // the length of the decrypted payload: maxPlaintext
+			}
+			if bo.Op == token.GEQ {
+				need++
+			}
+			if !isK {
+				c.ViolatedHard(rule, fname(f), fmt.Sprintf("records up to the protocol limit are not refused as too long #%d", n), "the record_overflow test compares the record length with a computed bound, not with the protocol constant (2^14+2048 for records, 2^14 for payloads): nothing shows that it adds up every overhead of every suite, and one missing term (the explicit CBC IV, for instance) rejects the peer's full-size records", ifi.Cond.Pos())
+				break
+			}
+			c.Check(isK && lim >= need, rule, fname(f), fmt.Sprintf("records up to the protocol limit are not refused as too long #%d", n), fmt.Sprintf("limit %d", lim), "the record_overflow test does not compare the record length with a constant of at least 2^14+2048: a computed per-suite bound that leaves out one overhead term (the explicit CBC IV, for instance) rejects the peer's full-size records", ifi.Cond.Pos())
+			break
+		}
+	}
+	if n == 0 {
+		c.Undecided(rule, fname(f), "record length limit", "no length test leading to the record_overflow alert found", f.Pos())
 	}
 }
